@@ -34,6 +34,8 @@ pub open spec fn dmask(b: bool, d: u128) -> u128 { if b { d } else { 0 } }
 /// IT-MAC relation: mac = key ^ bit*delta
 pub open(crate) spec fn mac_ok(m: Mac, k: Key, b: bool, d: Delta) -> bool { m.0 == k.0 ^ dmask(b, d.0) }
 
+pub open spec fn bxor3(a: bool, b: bool, c: bool) -> bool { a ^ b ^ c }
+
 pub open spec fn min_nat(a: nat, b: nat) -> nat { if a <= b { a } else { b } }
 
 /// view-level XOR of two (mac,key) vectors, truncated to the shorter (what `zip` does)
